@@ -257,7 +257,6 @@ func toModelFault(hit *site, snap []procSnap, errno string) (*faultM, error) {
 
 func observe(in Input, cfg *config.ConfigType, conf string, snap []procSnap) (*common.Case, error) {
 	desc := map[string]interface{}{"input": in, "layersdir": cfg.Layerdirs}
-	c := &common.Case{Desc: desc}
 	exe := os.Getenv("LCV_C19_EXE")
 	logfile := MP + "/strace.log"
 	var fault *faultM
@@ -313,6 +312,16 @@ func observe(in Input, cfg *config.ConfigType, conf string, snap []procSnap) (*c
 		} else {
 			so = scanToOut(cfg.Layerdirs)
 		}
+		return finishInProcess(in, cfg, snap, fault, so)
+	}
+	return finishCase(in, cfg, snap, fault, statusIdx, obsTerm, desc), nil
+}
+
+// finishInProcess: busy flags and DescribeUsers rows for an FindLayerUsers result, then the case
+func finishInProcess(in Input, cfg *config.ConfigType, snap []procSnap, fault *faultM, so scanOut) (*common.Case, error) {
+	desc := map[string]interface{}{"input": in, "layersdir": cfg.Layerdirs}
+	var obsTerm string
+	{
 		st, sdesc := scanTerm(so)
 		flagsT, rowsT := q.Some(q.List(nil)), q.List(nil)
 		od := map[string]interface{}{"scan": sdesc}
@@ -349,6 +358,12 @@ func observe(in Input, cfg *config.ConfigType, conf string, snap []procSnap) (*c
 		obsTerm = q.App("C19.OProc", st, flagsT, rowsT)
 	}
 
+	return finishCase(in, cfg, snap, fault, -1, obsTerm, desc), nil
+}
+
+func finishCase(in Input, cfg *config.ConfigType, snap []procSnap, fault *faultM, statusIdx int, obsTerm string,
+	desc map[string]interface{}) *common.Case {
+	c := &common.Case{Desc: desc}
 	// the input term
 	pts := make([]string, len(snap))
 	for i, p := range snap {
@@ -371,7 +386,7 @@ func observe(in Input, cfg *config.ConfigType, conf string, snap []procSnap) (*c
 		q.HxList([]string{cfg.LayerBuildRoot, cfg.LayerOvfsWorkdir, cfg.LayerOvfsUpperdir}),
 		q.HxList(names), q.List(pts), q.List(fts), stT, obsTerm)
 	classify(c, in, cfg, snap, fault)
-	return c, nil
+	return c
 }
 
 func classifyAndDescribe(in Input, cfg *config.ConfigType, inuse fs.InUseLayerMap) (fl []flagsObs, rows [][]rowObs, panicked bool, err error) {
